@@ -44,3 +44,31 @@ Proof.
     pose proof (ProofsB.n_const v n PCAP c06 LL) as N.
     split; [lia|exact D].
 Qed.
+
+(* ------------------------------------------------------------------------------------------ *)
+(* The completion rounds of [run] really bring the model to rest (so that the oracle's premise
+   "at rest" is met and the comparison with the implementation, which always runs until rest, is
+   meaningful).  Not needed for C13_model_ok; checked by a finite sweep: every schedule of length
+   <= 9 for one small configuration of each handshake (the bound is part of the statement). *)
+Fixpoint scheds_of_len (k : nat) : list schedule :=
+  match k with
+  | O => [[]]
+  | S k' => flat_map (fun l => [P :: l; C :: l]) (scheds_of_len k')
+  end.
+
+Fixpoint scheds_upto (k : nat) : list schedule :=
+  match k with
+  | O => [[]]
+  | S k' => scheds_of_len k ++ scheds_upto k'
+  end.
+
+Definition at_rest (o : obs) : bool :=
+  match o with Obs true _ 0 _ _ _ => true | _ => false end.
+
+Definition sweep_cases (l : schedule) : list case :=
+  [CaseA 2 l; CaseB B.V06 2 4 l; CaseB B.V08 2 4 l; CaseC 2 4 l; CaseD 2 2 l; CaseD 2 0 l;
+   CaseS 2 2 l].
+
+Lemma run_comes_to_rest_sweep :
+  forallb (fun l => forallb (fun c => at_rest (run c)) (sweep_cases l)) (scheds_upto 9) = true.
+Proof. vm_compute. reflexivity. Qed.
